@@ -175,9 +175,11 @@ fn check_graph(n: usize, adj: &[u32], subsets: &[u32], repeats: u32, st: &mut St
     }
 
     // ---- build-order resolver --------------------------------------------------
-    for rep in 0..repeats.max(1) {
+    // every second repetition gives pairs of nodes one name (a `Config` in two modules): a node is its name, path and kind together
+    for rep in 0..repeats.max(2) {
+        let shared_names = rep % 2 == 1;
         let mk = |i: usize| DependencyNode {
-            name: name(i),
+            name: if shared_names { name(i / 2) } else { name(i) },
             path: format!("src/{}.rs", i),
             node_type: if i % 2 == 0 { DependencyNodeType::Struct } else { DependencyNodeType::Enum },
         };
@@ -205,19 +207,20 @@ fn check_graph(n: usize, adj: &[u32], subsets: &[u32], repeats: u32, st: &mut St
                 if cyclic {
                     bad = Some("ok-on-cyclic-graph".into());
                 } else {
+                    let key = |u: usize| format!("src/{}.rs", u);
                     let mut pos: HashMap<String, usize> = HashMap::new();
                     for (i, nd) in order.iter().enumerate() {
-                        if pos.insert(nd.name.clone(), i).is_some() {
+                        if pos.insert(nd.path.clone(), i).is_some() {
                             bad = Some(format!("duplicate-node {}", nd.name));
                         }
                     }
-                    if bad.is_none() && (order.len() != n || (0..n).any(|u| !pos.contains_key(&name(u)))) {
+                    if bad.is_none() && (order.len() != n || (0..n).any(|u| !pos.contains_key(&key(u)))) {
                         bad = Some("missing-node".into());
                     }
                     if bad.is_none() {
                         'p: for u in 0..n {
                             for v in 0..n {
-                                if adj[u] >> v & 1 == 1 && pos[&name(v)] > pos[&name(u)] {
+                                if adj[u] >> v & 1 == 1 && pos[&key(v)] > pos[&key(u)] {
                                     bad = Some(format!("not-topological {}->{}", u, v));
                                     break 'p;
                                 }
@@ -238,7 +241,7 @@ fn check_graph(n: usize, adj: &[u32], subsets: &[u32], repeats: u32, st: &mut St
         if let Some(b) = bad {
             st.nviol += 1;
             if st.violations.len() < 20 {
-                st.violations.push(format!("resolver {} :: {}", describe(n, adj), b));
+                st.violations.push(format!("resolver{} {} :: {}", if shared_names { " (two nodes per name)" } else { "" }, describe(n, adj), b));
             }
         }
     }
